@@ -92,6 +92,21 @@ class C04(core.Check):
                 price = max(1.0, price + r.choice([-2, -1, -0.5, 0.5, 1, 2]))
                 w.price(0, price)
                 continue
+            if x < 0.55 and float(w.e.assets['BTC']) > 0 and r.random() < 0.25:
+                # the standard exit pair: a take-profit LIMIT and a stop-loss STOP, each for the whole base
+                b = float(w.e.assets['BTC'])
+                stop_now = False
+                for typ, p in (('LIMIT', price + 3), ('STOP', price - 3)):
+                    if ref.would_reject('sell', typ, b, p):
+                        continue
+                    ok = w.submit(0, 'sell', typ, b, p, True)
+                    if not ok:
+                        stop_now = True
+                        break
+                    ref.submit(len(w.s.orders) - 1, 'sell', typ, b, p)
+                if stop_now:
+                    break
+                continue
             if x < 0.55 or not active:
                 side = r.choice(['buy', 'buy', 'sell', 'sell', 'sell'])
                 typ = r.choice(['MARKET', 'LIMIT', 'STOP'])
